@@ -331,6 +331,9 @@ Proof.
   all: try (touch a W).
   all: try (unfold srv_sum in *; cbn [sv sids at_]; unfold upd, a_add; eqb_all;
             cbn [a_xact a_query a_sent a_recv]; repeat split; lia).
+  (* PeriodEnd: totals untouched *)
+  all: try (unfold srv_sum in *; cbn [sv sids at_]; destruct (has_server t a); unfold period_end;
+            cbn [a_xact a_query a_sent a_recv]; repeat split; assumption).
   (* ServerConnect *)
   assert (Hn : ~ In s (sids t)) by (rewrite (w_sids _ W); congruence).
   match goal with |- context [mkSt ?x1 ?x2 ?svf ?l ?x3 ?x4 ?atf] => set (t' := mkSt x1 x2 svf l x3 x4 atf) end.
@@ -418,6 +421,9 @@ Proof.
            pose proof (sv_sum_upd s_query t0 t' k eq_refl (w_nd_s _ W) Hin E2) as U2;
            rewrite E1 in U1, U2; cbn [s_xact s_query] in U1, U2; lia
        end.
+  (* PeriodEnd: totals untouched *)
+  all: try (unfold srv_sum in *; cbn [sv sids at_]; destruct (has_server t a); unfold period_end;
+            cbn [a_xact a_query a_sent a_recv]; repeat split; assumption).
   (* ServerConnect *)
   assert (Hn : ~ In s (sids t)) by (rewrite (w_sids _ W); congruence).
   unfold sv_sum. cbn [sv sids]. simpl sumf. rewrite upd_same. cbn [s_xact s_query].
@@ -449,7 +455,9 @@ Proof.
     try match goal with
         | |- context [match c_held (cl ?t ?c) with _ => _ end] => destruct (c_held (cl t c))
         end;
-    cbn [at_]; unfold upd, a_add, atot_le; eqb_all; cbn [a_xact a_query a_sent a_recv a_err]; lia.
+    cbn [at_]; unfold upd, a_add, atot_le, period_end;
+    try match goal with |- context [has_server ?t ?a] => destruct (has_server t a) end;
+    eqb_all; cbn [a_xact a_query a_sent a_recv a_err]; lia.
 Qed.
 
 Lemma at_mono cf ops more a : atot_le (at_ (run cf ops) a) (at_ (run cf (ops ++ more)) a).
@@ -601,3 +609,27 @@ Lemma cancel_bad_removes_target :
   let t := cancel_conn_bad (run cf_w [Login 1 1 true; HandleStart 1]) 1 in
   creg t = [] /\ c_phase (cl t 1) = PHandle /\ cl_idle (show_pools cf_w t 1) = 0 /\ length (clients_of t 1) = 1.
 Proof. vm_compute. repeat split. Qed.
+
+(* ------------------------------------------------------------------ the end of a statistics period *)
+
+Lemma period_end_keeps_totals cf ops :
+  let t := run cf ops in let t' := step cf t PeriodEnd in
+  (forall a, a_xact (at_ t' a) = a_xact (at_ t a) /\ a_query (at_ t' a) = a_query (at_ t a) /\
+             a_sent (at_ t' a) = a_sent (at_ t a) /\ a_recv (at_ t' a) = a_recv (at_ t a) /\
+             a_err (at_ t' a) = a_err (at_ t a)) /\
+  creg t' = creg t /\ sreg t' = sreg t /\ (forall c, cl t' c = cl t c) /\ (forall s, sv t' s = sv t s).
+Proof.
+  intros t t'. split; [|repeat split].
+  intros a. unfold t', step. simpl. destruct (has_server t a); simpl; repeat split.
+Qed.
+
+Definition errs_w : list op :=
+  [Login 1 1 true; HandleStart 1; ServerConnect 7 1; ServerReady 7; CheckoutStart 1; CandidateTry 1; CandidateFail 1 1 false;
+   CheckoutGiveUp 1].
+
+(** Regression witnesses: errors counted before a period end survive it; the seeded [period_end_bad] loses them. *)
+Lemma period_end_witness :
+  let t := run cf_w errs_w in let t' := step cf_w t PeriodEnd in
+  a_err (at_ t 1) = 2 /\ a_err (at_ t' 1) = 2 /\ c_err_ (at_ t 1) = 2 /\ c_err_ (at_ t' 1) = 0 /\
+  a_err (period_end_bad (at_ t 1)) = 0 /\ ~ atot_le (at_ t 1) (period_end_bad (at_ t 1)).
+Proof. vm_compute. repeat split. intros [_ [_ [_ [_ H]]]]. inversion H. Qed.
